@@ -82,6 +82,8 @@ class RaggedSys(System):
             x = payload.values('H', 1, at, dt)
             x = np.concatenate([x] * n).astype(dt)
             return x, x
+        if colour == 'strnum':   # a string NumPy converts to ONE number: len() of the item (2) is not the number of values (1)
+            return '12', None
         if colour == 'ovlist':   # a Python sequence holding an integer that does not fit the dtype: np.asarray(item, dtype) refuses it
             info = np.iinfo(dt)
             row = np.full(at, 1, dtype='int64').tolist() if at else 1
@@ -178,6 +180,8 @@ class RaggedSys(System):
             ops += [('append', 'badatom'), ('append', 'badrank'), ('append', 'unconv'), ('append', 'badatom0'), ('append', 'badzero')]
             if self.dtype.kind in 'iu' and self.dtype.itemsize < 8:
                 ops += [('append', 'ovlist')]
+            if not self.atom:
+                ops += [('append', 'strnum')]
             ops += [('truncate', k) for k in TRUNC_KS]
             ops += [('mode', 'r'), ('mode', 'r+'), ('reopen',), ('truncpath', 1)]
         if 'meta' in self.features:
